@@ -295,7 +295,7 @@ def run(tier):
                    "replayed in Coq along the real interpreter's recorded control flow; RepeatVariable exhaustive for "
                    "positions 0..5000; non-trivial = the template has TAL/METAL statements and the outputs agree" % maxdepth)
     if k_broken:
-        chk.correspondence_broken("K17 (wf_program / VM trace / RepeatVariable)", k_detail, found)
+        chk.correspondence_broken("K17 (wf_program / compile model / VM trace / Context.evaluate / RepeatVariable)", k_detail, found)
     chk.finish_proofs(found)
     chk.assumptions += [
         "html.parser (event stream) and Python's eval are outside the model; path traversal into arbitrary Python objects is "
